@@ -64,6 +64,14 @@ pub fn yp2(site: u32, addr: usize, a: usize, b: usize) {
     }
 }
 
+/// Announces the next access to `addr` by this thread without yielding (see [`auto`]).
+#[inline(always)]
+pub fn arm(addr: usize) {
+    if table().is_some() {
+        ARMED.with(|a| a.set(addr));
+    }
+}
+
 /// Called by the instrumented atomic types ([`HookedU64`], [`HookedAtomic`]) before every access:
 /// a yield point of its own ([`site::AUTO`]) unless an explicit one has just announced this very
 /// access. This way an access that nobody annotated is still a point where the harness can switch
